@@ -44,7 +44,9 @@ def h_exact(ctx, cfg):
             R2 = S.mask(sig, n, *sorted(names))
         except ValueError as e:
             err2 = e
-        same = (R is None) == (R2 is None) and (R is None or params_key(R) == params_key(R2))
+        # equality as inspect.Signature defines it: positional parameters in order, keyword-only ones as a set
+        canon = lambda sig: (tuple(e for e in params_key(sig) if e[1] != 3), frozenset(e for e in params_key(sig) if e[1] == 3))
+        same = (R is None) == (R2 is None) and (R is None or canon(R) == canon(R2))
         ctx.require('order-independent', same,
                     lambda: dict(n=n, given=str(R) if R is not None else repr(err),
                                  sorted=str(R2) if R2 is not None else repr(err2)))
